@@ -545,6 +545,7 @@ def run(tier: str) -> int:
         rep.add_result(r)
         for v in r.get("violations", []):
             by_class.setdefault(plan_class(v["plan"], v["violation"]) + ":" + v["scenario"]["config"]["store"], []).append(v)
+    kit.dump_raw(PROP, tier, by_class)
     unknown: dict[str, list[dict[str, Any]]] = {}
     for cls, vs in sorted(by_class.items()):
         for v in vs:
